@@ -33,6 +33,7 @@ type Contract struct {
 	Inline   bool     // body is inlined at call sites (its loop specs are used there)
 	Pure     bool     // ensures clauses define the result as a function of the arguments (no heap effect)
 	Assigns  []string // informational; the effective frame is the inferred mod set
+	Uses       []string // named axioms this function's proof may use
 	DynCallees []string // possible targets of calls through non-operator function values in this function
 	Trusted  bool     // contract is assumed at call sites but the body is not verified (listed as assumption)
 	Line     int
@@ -59,13 +60,14 @@ type Spec struct {
 	Ghost     []string // SMT-LIB declarations/definitions added to the prelude
 	Lemmas    []*Lemma
 	Axioms    []string // assumed facts (each listed in the evidence)
+	AxiomNames []string // parallel: "" = global (every query), otherwise only in functions that say `uses <name>`
 	Macros    map[string]*Macro
 	FieldInvs map[string]*core.Sexp // "Type.field" -> invariant over $v (assumed at loads, proved at stores)
 	Errors    []string
 }
 
 var clauseKeywords = map[string]bool{"func": true, "requires": true, "ensures": true, "loop": true, "invariant": true,
-	"decreases": true, "lemma": true, "macro": true, "dyncallees": true, "fieldinv": true, "ghost": true, "axiom": true, "inline": true, "assigns": true, "props": true, "trusted": true, "pure": true, "end": true}
+	"decreases": true, "lemma": true, "macro": true, "dyncallees": true, "fieldinv": true, "uses": true, "ghost": true, "axiom": true, "inline": true, "assigns": true, "props": true, "trusted": true, "pure": true, "end": true}
 
 // ParseSpec reads the //@ lines of the guarded contract file.
 func ParseSpec(lines []load.ContractLine) *Spec {
@@ -157,6 +159,10 @@ func ParseSpec(lines []load.ContractLine) *Spec {
 			if cur != nil {
 				cur.Assigns = append(cur.Assigns, r.rest)
 			}
+		case "uses":
+			if cur != nil {
+				cur.Uses = append(cur.Uses, strings.Fields(r.rest)...)
+			}
 		case "dyncallees":
 			if cur != nil {
 				cur.DynCallees = append(cur.DynCallees, strings.Fields(r.rest)...)
@@ -244,7 +250,16 @@ func ParseSpec(lines []load.ContractLine) *Spec {
 			sp.Ghost = append(sp.Ghost, r.rest)
 			cur, curLoop = cur, curLoop
 		case "axiom":
-			sp.Axioms = append(sp.Axioms, r.rest)
+			rest := strings.TrimSpace(r.rest)
+			name := ""
+			if strings.HasPrefix(rest, "[") {
+				if j := strings.Index(rest, "]"); j > 0 {
+					name = strings.TrimSpace(rest[1:j])
+					rest = strings.TrimSpace(rest[j+1:])
+				}
+			}
+			sp.Axioms = append(sp.Axioms, rest)
+			sp.AxiomNames = append(sp.AxiomNames, name)
 		case "lemma":
 			f := strings.SplitN(strings.TrimSpace(r.rest), "\n", 2)
 			hdr := strings.Fields(f[0])
